@@ -233,7 +233,9 @@ def encParam (c : CryptoOps) (kv : KeyView) (s : ColSetting) (fmt : Fmt) (data r
 
 /-! ### the read chain -/
 
-/-- `PgSQLDataDecoderProcessor.OnColumn`: (decoded data, remembered encoded value); `none` = fatal error -/
+/-- `PgSQLDataDecoderProcessor.OnColumn`: (decoded data, remembered encoded value); `none` = fatal error
+(a value that starts with `\x` but is not valid hex fails the whole response – known finding
+`pg-uncovered-hex-lookalike`, kept because Acra's own test suite asserts this error) -/
 def decodeCol (s : Option ColSetting) (fmt : Fmt) (data : Bytes) : Option (Bytes × Option Bytes) :=
   let typed := match s with | some s => s.dtype != .none | none => false
   if typed && fmt == .binary then some (data, none) else
@@ -244,8 +246,9 @@ def decodeCol (s : Option ColSetting) (fmt : Fmt) (data : Bytes) : Option (Bytes
 
 /-- `PgSQLDataEncoderProcessor.OnColumn` (default `response_on_fail`) -/
 def encodeCol (s : Option ColSetting) (fmt : Fmt) (decrypted : Bool) (encoded : Option Bytes) (data : Bytes) : Bytes :=
-  if data.isEmpty then data else
   let dt := match s with | some s => s.dtype | none => .none
+  -- empty after decoding (the bytea text form `\x`): columns without a data type get back what the database sent
+  if data.isEmpty then (if dt == .none then encoded.getD data else data) else
   match dt with
   | .str => data
   | .bytes => if fmt == .binary then data else pgHex data
